@@ -163,17 +163,24 @@ def r133(chk, m):
                    'on the tree doc[ch1[s11 s12] ch2[s21]]: %s; expected the order of the document' % sorted(got), chk.where(fn))
     except D.Imprecise as e:
         chk.undecided(R, 'cacheFilenames is a pre-order walk', str(e), chk.where(fn))
-    rr = m.func(REN, 'Renderer.render')
+    from . import renderheap as RH
+    rr, paths = RH.protocol_paths(m)
     chk.analysed(rr)
-
-    def transfer(n, v):
-        if isinstance(n, ast.Call) and M.call_name(n).endswith('cacheFilenames'):
-            return 'cached'
-        if isinstance(n, ast.Call) and M.call_name(n) == 'str' and n.args and text(n.args[0]) == 'document':
-            return v + '|rendered'
-        return v
-    normal, raised = flow.function_exits(rr.node, 'none', transfer)
-    chk.verdict(R, 'render caches filenames before rendering', normal == {'cached|rendered'}, 'render exits with %s' % sorted(normal), chk.where(rr))
+    if isinstance(paths, str):
+        chk.undecided(R, 'render caches filenames before rendering', paths, chk.where(rr))
+    else:
+        chk.paths += len(paths)
+        got = set()
+        for kind, events, _left in paths:
+            names = [i for i, e in enumerate(events) if e.startswith('names')]
+            rend = [i for i, e in enumerate(events) if e.startswith('render')]
+            order = 'names are never issued' if not names else ('nothing is rendered' if not rend else
+                                                                 ('names before rendering' if max(names) < min(rend) else 'rendering before names'))
+            got.add((kind, RH.event_states(events, 'names'), order))
+        chk.decide(R, 'render caches filenames before rendering', got, {('return', ('[mixed,renderer]',), 'names before rendering')},
+                   'Renderer.render interpreted on a document without imagers: (outcome, state when the names are issued, order) = %s; the '
+                   'names of all nodes must be issued once, with the renderable mix-in and Node.renderer in place, before the document is rendered'
+                   % sorted(got), chk.where(rr))
 
 
 NONDET = re.compile(r'^(id|hash|random\.\w+|time\.\w+|os\.listdir|glob\.glob|uuid\.\w+|datetime\.\w+|set|os\.getpid|os\.urandom)$')
